@@ -133,11 +133,112 @@ fn wrong_literal(ix: &SchemaIx, ty: &Ty) -> Option<(Val, &'static str)> {
     })
 }
 
-const N: usize = 33;
+/// visit every field selection reachable from `ss` without going through named fragment spreads, with its definition
+fn visit_fields_mut(ss: &mut SelSet, parent: &str, ix: &SchemaIx, f: &mut dyn FnMut(&mut Field, &FieldDef) -> bool) -> bool {
+    for s in ss.items.iter_mut() {
+        match s {
+            Sel::Field(fl) => {
+                if let Some(fd) = ix.field(parent, &fl.name.s) {
+                    if f(fl, &fd) {
+                        return true;
+                    }
+                    if let Some(sub) = &mut fl.sels {
+                        let base = fd.ty.base().to_string();
+                        if visit_fields_mut(sub, &base, ix, f) {
+                            return true;
+                        }
+                    }
+                }
+            }
+            Sel::Inline { cond, sels, .. } => {
+                let p = cond.as_ref().map(|c| c.s.clone()).unwrap_or_else(|| parent.to_string());
+                if visit_fields_mut(sels, &p, ix, f) {
+                    return true;
+                }
+            }
+            Sel::Spread { .. } => {}
+        }
+    }
+    false
+}
+
+/// R12, one precise way at a time: a fresh variable `$nv` whose type is too weak for exactly one position.
+/// -> (value to put at the argument, type of $nv, label) for argument definition `d`, or None when the scenario does not fit
+fn weak_variable_use(rng: &mut Rng, ix: &SchemaIx, d: &InputValueDef, scenario: usize) -> Option<(Val, Ty, String)> {
+    let loc_default = |b: bool| if b { "location-has-default" } else { "location-without-default" };
+    let required_others = |rng: &mut Rng, def: &TypeDef, except: &str| -> Vec<(Name, Val)> {
+        def.input_fields.iter().filter(|g| g.name.s != except && g.ty.is_non_null() && g.default.is_none()).map(|g| (nm(&g.name.s), crate::gen_schema::gen_const(rng, ix, &g.ty, 1, false))).collect()
+    };
+    match scenario {
+        0 => {
+            // nullable variable (no default) at a required argument
+            if !d.ty.is_non_null() || d.default.is_some() {
+                return None;
+            }
+            Some((Val::var("nv"), d.ty.nullable().clone(), "nullable-variable-at-required-argument".into()))
+        }
+        1 => {
+            // nullable variable as an item of a list literal whose item type is non-null (the list position may have a default)
+            let Ty::List(inner, _) = d.ty.nullable() else { return None };
+            if !inner.is_non_null() {
+                return None;
+            }
+            let mut items = vec![];
+            if rng.coin() {
+                items.push(crate::gen_schema::gen_const(rng, ix, inner, 1, false));
+            }
+            items.push(Val::var("nv"));
+            if rng.coin() {
+                items.push(crate::gen_schema::gen_const(rng, ix, inner, 1, false));
+            }
+            Some((Val::list(items), inner.nullable().clone(), format!("nullable-variable-in-list-literal|{}", loc_default(d.default.is_some()))))
+        }
+        2 => {
+            // list variable whose item type is nullable where non-null items are expected
+            let Ty::List(inner, p) = d.ty.nullable() else { return None };
+            if !inner.is_non_null() {
+                return None;
+            }
+            let weak = Ty::List(Box::new(inner.nullable().clone()), p.clone());
+            let vty = if d.ty.is_non_null() { Ty::non_null(weak) } else { weak };
+            Some((Val::var("nv"), vty, format!("nullable-items-in-list-variable|{}", loc_default(d.default.is_some()))))
+        }
+        3 => {
+            // nullable variable at a required field (no default) of an input object literal
+            if d.ty.list_depth() > 0 || ix.kind(d.ty.base()) != Some(TKind::Input) {
+                return None;
+            }
+            let def = ix.ty(d.ty.base())?.clone();
+            let cands: Vec<&InputValueDef> = def.input_fields.iter().filter(|f| f.ty.is_non_null() && f.default.is_none()).collect();
+            let f = *rng.pick_opt(&cands)?;
+            let mut fields = required_others(rng, &def, &f.name.s);
+            fields.push((nm(&f.name.s), Val::var("nv")));
+            rng.shuffle(&mut fields);
+            Some((Val::Obj(fields, P::none()), f.ty.nullable().clone(), "nullable-variable-at-required-input-field".into()))
+        }
+        _ => {
+            // nullable variable inside a list literal given for an input object field with non-null items
+            if d.ty.list_depth() > 0 || ix.kind(d.ty.base()) != Some(TKind::Input) {
+                return None;
+            }
+            let def = ix.ty(d.ty.base())?.clone();
+            let cands: Vec<&InputValueDef> = def.input_fields.iter().filter(|f| matches!(f.ty.nullable(), Ty::List(inner, _) if inner.is_non_null())).collect();
+            let f = *rng.pick_opt(&cands)?;
+            let Ty::List(inner, _) = f.ty.nullable() else { return None };
+            let mut fields = required_others(rng, &def, &f.name.s);
+            fields.push((nm(&f.name.s), Val::list(vec![Val::var("nv")])));
+            rng.shuffle(&mut fields);
+            Some((Val::Obj(fields, P::none()), inner.nullable().clone(), format!("nullable-variable-in-list-literal-of-input-field|{}", loc_default(f.default.is_some()))))
+        }
+    }
+}
+
+const N: usize = 34;
 
 pub fn inject(rng: &mut Rng, ix: &SchemaIx, base: &ExecDoc) -> Option<OpFault> {
     for _ in 0..40 {
-        let w = rng.below(N);
+        // the position-precise variable injector has five scenarios of its own: give it more weight
+        let w = if rng.chance(1, 6) { 32 } else { rng.below(N) };
         if let Some(f) = inject_one(rng, ix, base, w) {
             return Some(f);
         }
@@ -628,6 +729,51 @@ pub fn inject_one(rng: &mut Rng, ix: &SchemaIx, base: &ExecDoc, which: usize) ->
             let t = rng.pick_opt(&composites)?.clone();
             doc.defs.push(ExecDef::Frag(FragDef { p: P::none(), name: nm("NeverSpread"), cond: nm(&t), dirs: vec![], sels: SelSet { p: P::none(), items: vec![Sel::Field(Field::leaf("__typename")), Sel::Spread { p: P::none(), name: nm("NeverSpread"), dirs: vec![] }] } }));
             done!("R16", "fragment-cycle|unused-fragment", &["RecursingFragmentSpread"]);
+        }
+        32 => {
+            // R12 at one precise position, in an operation (so that the fresh variable is certainly in scope)
+            let scenario = rng.below(5);
+            let ops: Vec<usize> = doc.defs.iter().enumerate().filter(|(_, d)| matches!(d, ExecDef::Op(_))).map(|(i, _)| i).collect();
+            let oi = *rng.pick_opt(&ops)?;
+            let ExecDef::Op(o) = &mut doc.defs[oi] else { return None };
+            let root = ix.root(o.kind)?.clone();
+            // count candidate (field, argument) pairs, then mutate a random one
+            let mut cands = 0usize;
+            {
+                let mut probe = Rng::new(1);
+                visit_fields_mut(&mut o.sels, &root, ix, &mut |_, fd| {
+                    cands += fd.args.iter().filter(|a| weak_variable_use(&mut probe, ix, a, scenario).is_some()).count();
+                    false
+                });
+            }
+            if cands == 0 {
+                return None;
+            }
+            let target = rng.below(cands);
+            let mut seen = 0usize;
+            let mut made: Option<(Ty, String)> = None;
+            visit_fields_mut(&mut o.sels, &root, ix, &mut |fl, fd| {
+                for a in &fd.args {
+                    let mut probe = Rng::new(1);
+                    if weak_variable_use(&mut probe, ix, a, scenario).is_none() {
+                        continue;
+                    }
+                    if seen == target {
+                        if let Some((val, vty, label)) = weak_variable_use(rng, ix, a, scenario) {
+                            fl.args.retain(|(k, _)| k.s != a.name.s);
+                            fl.args.push((nm(&a.name.s), val));
+                            made = Some((vty, label));
+                        }
+                        return true;
+                    }
+                    seen += 1;
+                }
+                false
+            });
+            let (vty, label) = made?;
+            o.vars.retain(|v| v.name.s != "nv");
+            o.vars.push(VarDef { p: P::none(), name: nm("nv"), ty: vty, default: None, dirs: vec![] });
+            done!("R12", label, &["TypeMismatch"]);
         }
         _ => {
             // R6/R8 on a directive argument: @skip(if: "yes") / @skip(if: true, bogus: 1) on a random selection
